@@ -330,29 +330,12 @@ func (g *gen) inject(pos token.Pos, name string, sig *types.Signature, set *Prov
 		typeInfo *types.Info
 	}
 	var pendingVars []pendingVar
-	ec := new(errorCollector)
+	if errs := checkCalls(g.pkg.Fset, pos, name, g.pkg.PkgPath, injectSig, calls); len(errs) > 0 {
+		return errs
+	}
 	for i := range calls {
 		c := &calls[i]
-		if c.hasCleanup && !injectSig.cleanup {
-			ts := types.TypeString(c.out, nil)
-			ec.add(notePosition(
-				g.pkg.Fset.Position(pos),
-				fmt.Errorf("inject %s: provider for %s returns cleanup but injection does not return cleanup function", name, ts)))
-		}
-		if c.hasErr && !injectSig.err {
-			ts := types.TypeString(c.out, nil)
-			ec.add(notePosition(
-				g.pkg.Fset.Position(pos),
-				fmt.Errorf("inject %s: provider for %s returns error but injection not allowed to fail", name, ts)))
-		}
 		if c.kind == valueExpr {
-			if err := accessibleFrom(c.valueTypeInfo, c.valueExpr, g.pkg.PkgPath); err != nil {
-				// TODO(light): Display line number of value expression.
-				ts := types.TypeString(c.out, nil)
-				ec.add(notePosition(
-					g.pkg.Fset.Position(pos),
-					fmt.Errorf("inject %s: value %s can't be used: %v", name, ts, err)))
-			}
 			if g.values[c.valueExpr] == "" {
 				t := c.valueTypeInfo.TypeOf(c.valueExpr)
 
@@ -365,9 +348,6 @@ func (g *gen) inject(pos token.Pos, name string, sig *types.Signature, set *Prov
 				})
 			}
 		}
-	}
-	if len(ec.errors) > 0 {
-		return ec.errors
 	}
 
 	// Perform one pass to collect all imports, followed by the real pass.
@@ -391,6 +371,38 @@ func (g *gen) inject(pos token.Pos, name string, sig *types.Signature, set *Prov
 		g.p(")\n\n")
 	}
 	return nil
+}
+
+// checkCalls verifies that the injector named name, declared at pos in the
+// package pkgPath with result signature injectSig, can return the errors and
+// cleanups its calls produce and can refer to every value expression.
+func checkCalls(fset *token.FileSet, pos token.Pos, name string, pkgPath string, injectSig outputSignature, calls []call) []error {
+	ec := new(errorCollector)
+	for i := range calls {
+		c := &calls[i]
+		if c.hasCleanup && !injectSig.cleanup {
+			ts := types.TypeString(c.out, nil)
+			ec.add(notePosition(
+				fset.Position(pos),
+				fmt.Errorf("inject %s: provider for %s returns cleanup but injection does not return cleanup function", name, ts)))
+		}
+		if c.hasErr && !injectSig.err {
+			ts := types.TypeString(c.out, nil)
+			ec.add(notePosition(
+				fset.Position(pos),
+				fmt.Errorf("inject %s: provider for %s returns error but injection not allowed to fail", name, ts)))
+		}
+		if c.kind == valueExpr {
+			if err := accessibleFrom(c.valueTypeInfo, c.valueExpr, pkgPath); err != nil {
+				// TODO(light): Display line number of value expression.
+				ts := types.TypeString(c.out, nil)
+				ec.add(notePosition(
+					fset.Position(pos),
+					fmt.Errorf("inject %s: value %s can't be used: %v", name, ts, err)))
+			}
+		}
+	}
+	return ec.errors
 }
 
 // rewritePkgRefs rewrites any package references in an AST into references for the
